@@ -186,6 +186,7 @@ structure Dp where
   id : List Tok
   parentId : Option (List Tok) := none     -- the multi-choice this sub-choice belongs to
   sub : Option Nat := none                 -- `subchoice_index`
+  arity : Nat := 1                         -- `num_choices` of the multi-choice this sub-choice belongs to
   name : Option String := none
   n : Nat := 0                             -- number of candidates
   lits : Option (List Lit) := none
@@ -214,8 +215,10 @@ mutual
     | c :: cs => unboundOf c :: unboundList cs
 end
 
-def choiceDp (id : List Tok) (parentId : Option (List Tok)) (sub : Option Nat) (info : Info) (n : Nat) : Dp :=
-  { id := id, parentId := parentId, sub := sub, name := info.name, n := n, lits := info.lits, kind := .choice }
+def choiceDp (id : List Tok) (parentId : Option (List Tok)) (sub : Option Nat) (info : Info) (n : Nat)
+    (k : Nat := 1) : Dp :=
+  { id := id, parentId := parentId, sub := sub, arity := k, name := info.name, n := n, lits := info.lits,
+    kind := .choice }
 
 def annotSingleWith (dp : Dp) (kat : Nat → List DNA → Option (List BDNA)) : DNA → Option BDNA
   | .mk (.int v) cs =>
@@ -235,7 +238,7 @@ def annotChoiceNodes (id : List Tok) (k n : Nat) (info : Info)
   if cs.length != k then none
   else if k == 1 then mapIdxM (fun _ c => annotSingleWith (choiceDp id none none info n) (kat id) c) 0 cs
   else mapIdxM (fun i c =>
-    annotSingleWith (choiceDp (id ++ [.i (i : Nat)]) (some id) (some i) info n) (kat (id ++ [.i (i : Nat)])) c) 0 cs
+    annotSingleWith (choiceDp (id ++ [.i (i : Nat)]) (some id) (some i) info n k) (kat (id ++ [.i (i : Nat)])) c) 0 cs
 
 def annotLeaf (pre : List Tok) : Point → DNA → Option BDNA
   | .float _ _ _ _ info, .mk (.flt n d) cs =>
@@ -304,6 +307,7 @@ inductive DV where
   | dna (d : DNA)
   | str (s : String)
   | lit (l : Lit)
+  | choice (i n : Nat) (lit : Option Lit)   -- the strings 'i/n' and 'i/n (literal)', kept structured
   deriving Repr, Inhabited
 
 inductive DE where
@@ -330,17 +334,21 @@ def keyOf (o : Opts) (name : Option String) (id : List Tok) : String :=
 
 /-- `format_candidate` (categorical.py:204-228) / the value styles of `to_dict`. -/
 def fmtChoice (o : Opts) (dp : Dp) (v : Int) (self : DNA) : DV :=
-  let plain := toString v ++ "/" ++ toString dp.n
   match o.valueType with
   | 0 => .val (.int v)
   | 1 => .dna self
-  | 2 => .str plain
+  | 2 => .choice v.toNat dp.n none
   | 3 => match dp.lits.bind (·[v.toNat]?) with
          | some l => .lit l
-         | none => .str plain
-  | _ => match dp.lits.bind (·[v.toNat]?) with
-         | some l => .str (plain ++ " (" ++ litStr l ++ ")")
-         | none => .str plain
+         | none => .choice v.toNat dp.n none
+  | _ => .choice v.toNat dp.n (dp.lits.bind (·[v.toNat]?))
+
+/-- The text of a structured choice value (`format_candidate`). -/
+def choiceStr (i n : Nat) (lit : Option Lit) : String :=
+  let plain := toString i ++ "/" ++ toString n
+  match lit with
+  | some l => plain ++ " (" ++ litStr l ++ ")"
+  | none => plain
 
 def dictPut (dict : List (String × DE)) (k : String) (v : DV) : List (String × DE) :=
   if dict.any (·.1 == k) then
@@ -383,6 +391,179 @@ mutual
 end
 
 def toDict (o : Opts) (b : BDNA) : List (String × DE) := dumpNode o b []
+
+/-! ### from_dict (base.py:926-1047) -/
+
+def dictGet (d : List (String × DE)) (k : String) : Option DE := (d.find? (·.1 == k)).map (·.2)
+
+def dictSet (d : List (String × DE)) (k : String) (e : DE) : List (String × DE) :=
+  d.map fun (k', e') => if k' == k then (k', e) else (k', e')
+
+/-- `_get_decision`: by id, else by name; a list found under the NAME is popped. `none` = no decision. -/
+def getDecision (d : List (String × DE)) (id : String) (name : Option String) :
+    Option DE × List (String × DE) :=
+  match dictGet d id with
+  | some e => (some e, d)
+  | none =>
+    match name with
+    | none => (none, d)
+    | some nm =>
+      match dictGet d nm with
+      | some (.many (x :: rest)) => (some (.one x), dictSet d nm (.many rest))
+      | some (.many []) => (none, dictSet d nm (.many []))
+      | some (.one x) => (some (.one x), d)
+      | none => (none, d)
+
+def digitsVal (cs : List Char) : Option Nat :=
+  if cs.isEmpty || !cs.all Char.isDigit then none
+  else some (cs.foldl (fun acc c => acc * 10 + (c.toNat - 48)) 0)
+
+/-- The two regular expressions of `candidate_index`: `^(\d+)/(\d+)$` and
+`^(\d+)/(\d+) \((.*)\)$` (ASCII digits). -/
+def parseChoice (s : String) : Option (Nat × Nat × Option String) :=
+  let cs := s.toList
+  let a := cs.takeWhile Char.isDigit
+  match cs.dropWhile Char.isDigit with
+  | '/' :: rest =>
+    let b := rest.takeWhile Char.isDigit
+    match digitsVal a, digitsVal b, rest.dropWhile Char.isDigit with
+    | some i, some n, [] => some (i, n, none)
+    | some i, some n, ' ' :: '(' :: tail =>
+      match tail.reverse with
+      | ')' :: body => some (i, n, some (String.mk body.reverse))
+      | _ => none
+    | _, _, _ => none
+  | _ => none
+
+/-- The last position (counted from `i`) of `l` in the list. -/
+def lastIndexFrom (l : Lit) : List Lit → Nat → Option Nat
+  | [], _ => none
+  | x :: xs, i =>
+    match lastIndexFrom l xs (i + 1) with
+    | some j => some j
+    | none => if x == l then some i else none
+
+/-- `self._literal_index.get(value)`: the LAST candidate with that literal. -/
+def litIndex (lits : Option (List Lit)) (l : Lit) : Option Nat :=
+  match lits with
+  | none => none
+  | some ls => lastIndexFrom l ls 0
+
+/-- The checks of `candidate_index` after the text was taken apart. -/
+def checkChoice (lits : Option (List Lit)) (n i n' : Nat) (lit : Option String) : Option Nat :=
+  if i < n && n' == n &&
+      (match lit with
+       | none => true
+       | some t => match lits.bind (·[i]?) with
+                   | some l => t == litStr l
+                   | none => false)
+  then some i else none
+
+/-- `_choice_index` (base.py:966-977) on one dictionary value. -/
+def choiceIndex (useInts : Bool) (lits : Option (List Lit)) (n : Nat) : DV → Option Nat
+  | .val (.int i) | .lit (.i i) =>
+    if !useInts then (if inRange n i then some i.toNat else none)
+    else (litIndex lits (.i i)).bind fun j => if j < n then some j else none
+  | .val (.flt a b) | .lit (.f a b) => (litIndex lits (.f a b)).bind fun j => if j < n then some j else none
+  | .val (.str t) | .lit (.s t) | .str t =>
+    match parseChoice t with
+    | some (i, n', lit) => checkChoice lits n i n' lit
+    | none => (litIndex lits (.s t)).bind fun j => if j < n then some j else none
+  | .choice i n' lit => checkChoice lits n i n' (lit.map litStr)
+  | _ => none
+
+/-- The decision of one (sub-)choice: under its own id (or name), else position `idx` of the list
+under the id (or name) of the multi-choice `parent = (pid, k, idx)` it belongs to. -/
+def lookupChoice (d : List (String × DE)) (id : List Tok) (name : Option String)
+    (parent : Option (List Tok × Nat × Nat)) : Option (DV × List (String × DE)) :=
+  match getDecision d (renderId id) name with
+  | (some (.one x), d1) => some (x, d1)
+  | (some (.many _), _) => none
+  | (none, d1) =>
+    match parent with
+    | none => none
+    | some (pid, k, idx) =>
+      match getDecision d1 (renderId pid) name with
+      | (some (.many xs), d2) => if xs.length == k then (xs[idx]?).map fun x => (x, d2) else none
+      | _ => none
+
+/-- One (sub-)choice of a decision point: look the decision up, turn it into a candidate index,
+build the chosen candidate's DNA (`fat`). `parent`: the multi-choice to fall back to. -/
+def fromDictChoiceWith (useInts : Bool) (info : Info) (n : Nat)
+    (fat : List Tok → Nat → List (String × DE) → Option (DNA × List (String × DE)))
+    (id : List Tok) (parent : Option (List Tok × Nat × Nat)) (d : List (String × DE)) :
+    Option (DNA × List (String × DE)) :=
+  match lookupChoice d id info.name parent with
+  | none => none
+  | some (.dna c, d) => some (c, d)
+  | some (x, d) =>
+    match choiceIndex useInts info.lits n x with
+    | none => none
+    | some idx =>
+      match fat (id ++ [.cond idx n]) idx d with
+      | none => none
+      | some (sub, d') => some (DNA.mk' (.int (idx : Nat)) [sub], d')
+
+def fromDictLoop (f : Nat → List (String × DE) → Option (DNA × List (String × DE))) :
+    Nat → Nat → List (String × DE) → Option (List DNA × List (String × DE))
+  | _, 0, d => some ([], d)
+  | i, k + 1, d =>
+    match f i d with
+    | none => none
+    | some (c, d') => (fromDictLoop f (i + 1) k d').map fun (cs, d'') => (c :: cs, d'')
+
+mutual
+  def fromDictP (useInts : Bool) (pre : List Tok) : Point → List (String × DE) →
+      Option (DNA × List (String × DE))
+    | .choices k cands _ _ info, d =>
+      let id := pre ++ locToks info.loc
+      (fromDictLoop (fun i d' =>
+          fromDictChoiceWith useInts info cands.length (fun pre' i' d'' => fromDictAt useInts cands pre' i' d'')
+            (if k == 1 then id else id ++ [.i (i : Nat)])
+            (if k == 1 then none else some (id, k, i)) d') 0 k d).map
+        fun (cs, d') => (DNA.mk' .none cs, d')
+    | .float loN loD hiN hiD info, d =>
+      match getDecision d (renderId (pre ++ locToks info.loc)) info.name with
+      | (some (.one x), d') =>
+        let v := match x with
+          | .dna c => c.value
+          | .val v => v
+          | _ => Val.none
+        (match v with
+         | .flt n e => if ratLe loN loD n e && ratLe n e hiN hiD then some (.mk (.flt n e) [], d') else none
+         | _ => none)
+      | _ => none
+    | .custom info, d =>
+      match getDecision d (renderId (pre ++ locToks info.loc)) info.name with
+      | (some (.one x), d') =>
+        (match x with
+         | .dna (.mk (.str t) _) => some (.mk (.str t) [], d')
+         | .val (.str t) => some (.mk (.str t) [], d')
+         | _ => none)
+      | _ => none
+  def fromDictElems (useInts : Bool) (pre : List Tok) : List Point → List (String × DE) →
+      Option (List DNA × List (String × DE))
+    | [], d => some ([], d)
+    | p :: ps, d =>
+      match fromDictP useInts pre p d with
+      | none => none
+      | some (c, d') => (fromDictElems useInts pre ps d').map fun (cs, d'') => (c :: cs, d'')
+  /-- `_make_dna(candidates[i])` with the id prefix `pre` of its elements. -/
+  def fromDictAt (useInts : Bool) : List (List Point) → List Tok → Nat → List (String × DE) →
+      Option (DNA × List (String × DE))
+    | [], _, _, _ => none
+    | c :: _, pre, 0, d => (fromDictElems useInts pre c d).map fun (cs, d') => (DNA.mk' .none cs, d')
+    | _ :: cs, pre, i + 1, d => fromDictAt useInts cs pre i d
+end
+
+/-- `DNA.from_dict(dict, spec, use_ints_as_literals)`. -/
+def Spec.fromDict (g : Spec) (useInts : Bool) (d : List (String × DE)) : Option DNA :=
+  let r : Option (DNA × List (String × DE)) := match g with
+    | .space s => (fromDictElems useInts [] s d).map fun (p : List DNA × List (String × DE)) => (DNA.mk' .none p.1, p.2)
+    | .point p => fromDictP useInts [] p d
+  match r with
+  | some (x, _) => if g.bind x then some x else none
+  | none => none
 
 /-! ### the Swap mutator on trees -/
 
